@@ -93,6 +93,11 @@ class NarwhalsMaterializer(FormulaMaterializer):
     ) -> Any:
         if drop_rows:
             values = drop_nulls(values, indices=drop_rows)
+        if isinstance(values, (int, float, numpy.number)):
+            # A constant (e.g. a number from the context): one value per row.
+            values = numpy.full(
+                self.nrows - len(drop_rows), getattr(values, "__wrapped__", values)
+            )
         if spec.output == "sparse":
             array = numpy.array(values)
             if array.dtype == numpy.float16:  # not supported by scipy.sparse
